@@ -491,7 +491,7 @@ func (x *c33Explorer) run(h []c33Event, checkFrom int) (key string) {
 				if x.cfg.Conns[e.Sender] != int(p2pConnTypeNone) {
 					type ntKey struct {
 						role, conn, sender, pkt, pool int
-						why                          string
+						why                           string
 					}
 					nk := ntKey{x.cfg.Roles[e.Sender], x.cfg.Conns[e.Sender], e.Sender, e.Pkt, x.cfg.PoolB, why}
 					if _, dup := x.ntSeen.Load(nk); !dup {
@@ -729,7 +729,7 @@ func c33Find(set []c33Pkt, p c33Pkt) int {
 func c33DeepConfigs(thorough bool) []c33Cfg {
 	N, P, F, O := int(p2pConnTypeNone), int(p2pConnTypeParent), int(p2pConnTypeFriend), int(p2pConnTypeOther)
 	cs := []c33Cfg{
-		{Roles: [3]int{2, 1, 0}, Conns: [3]int{F, P, O}}, // root friend, seed parent, citizen
+		{Roles: [3]int{2, 1, 0}, Conns: [3]int{F, P, O}},          // root friend, seed parent, citizen
 		{Roles: [3]int{0, 2, 2}, Conns: [3]int{O, F, N}, Self: 2}, // originator without role; a root whose connection is undetermined; S itself is a root
 		{Roles: [3]int{1, 0, 2}, Conns: [3]int{F, P, O}},
 		{Roles: [3]int{2, 2, 1}, Conns: [3]int{N, O, F}, Self: 1},
